@@ -457,7 +457,13 @@ class Canon:
             # `let mut v = z.to_vec(); v.extend(..)` is `Vec::new()` + extend(z) + ..: the copied slice is the first element
             out.append(self.c(cr))
         elif not (cr.k == 'call' and last(cr.name) in ('new', 'with_capacity')):
-            out.append('INIT:' + self.c(cr))
+            init = self.c(cr)
+            import re as _re
+            if seq and (_re.match(r'^byte\([^()]*\)$', init) or _re.match(r'^bytes:[0-9a-f]+$', init) or _re.match(r'^array\{\$\w+\}$', init)):
+                # `vec![b]` / `vec![a, b]` then extended: the literal content is the first element
+                out.append(init)
+            else:
+                out.append('INIT:' + init)
         for a in seq:
             if a.kind == 'bytesplit':
                 # `v.extend_from_slice(&x.to_be_bytes())`: one element in the sequence (rules that want the single bytes
@@ -506,6 +512,15 @@ class Canon:
                     if pending == want_off and tot == w:
                         out = out[:k_] + [el]
                         done_ = True
+                    else:
+                        # offset = the length the vector had after its first k elements, the rest has length w
+                        for k2 in range(len(out) - 1, -1, -1):
+                            off2 = 'RangeFrom::RangeFrom{%s}' % ('len([%s])' % ', '.join(out[:k2]) if k2 else '0')
+                            rest = [self.byte_len(x) for x in out[k2:]]
+                            if pending == off2 and all(rest) and sum(rest) == w:
+                                out = out[:k2] + [el]
+                                done_ = True
+                                break
                 if not done_:
                     out.append('other:index_mut(%s)' % pending)
                     out.append('%s(%s)' % (a.kind, el))
@@ -614,6 +629,14 @@ class Canon:
                             v = None
                 if v is not None:
                     fi = self.P.F.items.get(it) if getattr(self.P, 'F', None) is not None else None
+                    if fi is not None and (fi.get('ty') or '').startswith('[u8;'):
+                        # a named byte-array constant: its bytes, in order (same text as the literal array)
+                        import re as _re
+                        m_ = _re.match(r'^\[u8; (\d+)\]$', (fi.get('ty') or '').strip())
+                        if m_:
+                            n_ = int(m_.group(1))
+                            bs_ = v.to_bytes(n_, 'little')
+                            return 'byte(%d)' % bs_[0] if n_ == 1 else 'bytes:' + bs_.hex()
                     if fi is not None and (fi.get('ty') or '').startswith('['):
                         return 'arr:%s' % hex(v)
                     return str(v) if v < 1 << 16 else hex(v)
